@@ -11,7 +11,8 @@ RULE = (
     "a retried one, or an id never used; alone, gzip-packed, or in one container with the answer to ANOTHER, accepted request in either "
     "order; EVERY pending request rejected by its own bad_server_salt, all naming the SAME salt, as separate messages or in one container; "
     "new_session_created(s) followed by bad_server_salt(id, s); the announced salt is a new value, the value announced last, or an earlier "
-    "one - rotation back), new_session_created, other service messages, close the connection (the client reconnects), drain the Warnings channel - "
+    "one - rotation back - or a corner of int64: 0, 1, -1, 2^31-1, -2^31, 2^32, 2^32+5, -2^40, int64 max, int64 min; a bad_server_salt "
+    "naming the msg id of one of the client's own msgs_ack), new_session_created, other service messages, close the connection 0-2 times (the client reconnects), drain the Warnings channel - "
     "chosen by a splitmix64 stream seeded with VERIF_SEED; every 4th schedule starts with a key exchange in the same process (fresh "
     "session), the others resume a stored session. Every schedule ends with the closing procedure: run everything that is enabled, "
     "answer every request that is open under its latest id, then a probe call of a new caller that must complete. Thorough adds every "
